@@ -22,6 +22,7 @@ from qupulse.program import ProgramBuilder
 
 from qupulse.expressions import ExpressionScalar, ExpressionVariableMissingException, Expression
 from qupulse.utils import checked_int_cast, cached_property
+from qupulse.utils.sympy import rename_clashing_bound_symbols
 from qupulse.pulses.parameters import InvalidParameterNameException, ParameterConstrainer, ParameterNotProvidedException
 from qupulse.pulses.pulse_template import PulseTemplate, ChannelID, AtomicPulseTemplate
 from qupulse.program.waveforms import SequenceWaveform as ForLoopWaveform
@@ -139,7 +140,9 @@ class ForLoopPulseTemplate(LoopPulseTemplate, MeasurementDefiner, ParameterConst
         sum_index = self._sum_index()
 
         # replace loop_index with sum_index dependable expression
-        body_duration = self.body.duration.sympified_expression.subs({loop_index: self._loop_range.start.sympified_expression + sum_index*step_size})
+        index_expression = self._loop_range.start.sympified_expression + sum_index*step_size
+        body_duration = rename_clashing_bound_symbols(self.body.duration.sympified_expression,
+                                                      index_expression.free_symbols).subs({loop_index: index_expression})
 
         # number of sum contributions
         step_count = self._step_count()
@@ -228,11 +231,13 @@ class ForLoopPulseTemplate(LoopPulseTemplate, MeasurementDefiner, ParameterConst
         loop_index = sympy.symbols(self._loop_index)
         sum_index = self._sum_index()
 
+        # the range is evaluated outside of the loop: a parameter it refers to must not be captured by the bound symbol of
+        # a sum inside the body's integral (an inner loop whose index has the name of that parameter)
+        index_expression = self._loop_range.start.sympified_expression + sum_index*step_size
         body_integrals = self.body.integral
         body_integrals = {
-            c: body_integrals[c].sympified_expression.subs(
-                {loop_index: self._loop_range.start.sympified_expression + sum_index*step_size}
-            )
+            c: rename_clashing_bound_symbols(body_integrals[c].sympified_expression,
+                                             index_expression.free_symbols).subs({loop_index: index_expression})
             for c in body_integrals
         }
 
